@@ -1,6 +1,8 @@
 -- written by bin/mkroundpins from /repo at commit 472862f
 namespace Mps.SrcPins.SrcCmpConfig
 def f_config : List String := [
+  "decl:Config 4f08f0ce72c11bef7bbb45b0",
+  "decl:Public 7fe6167e0137ebbd83269513",
   "Config.PublicPoint e7d7d366b2a1a2f3e7b3b9d8",
   "Config.PartyIDs f0c701ced4e851196611d5ad",
   "Config.WriteTo c2c85331c4daeac114a6f689",
@@ -15,6 +17,8 @@ def f_config : List String := [
 ]
 def f_marshal : List String := [
   "EmptyConfig 06413cf3d0ddeccc18f435ec",
+  "decl:configMarshal 6305859b4846f5447fd2fecc",
+  "decl:publicMarshal 754ae23ae1cd430a70a2656a",
   "Config.MarshalBinary 26c583509bf8874b8877c224",
   "Config.UnmarshalCBOR 19acd9476d9548ee1415358e",
   "Config.UnmarshalBinary 7b06723f8bb4f6e7a9102477"
